@@ -10,6 +10,7 @@ import (
 	"verifharness/ref"
 )
 
+type T0 struct{}
 type T1 struct{ A int64 }
 type T2 struct {
 	S string
@@ -45,6 +46,8 @@ func Schemas() []SchemaCase {
 	s3 := ref.Record("T3", ref.F("A", ref.Prim("long")), ref.F("L", ref.Array(ref.Prim("string"))), ref.F("M", ref.Map(ref.Prim("long"))),
 		ref.F("P", ref.Union(ref.Prim("null"), ref.Prim("long"))))
 	return []SchemaCase{
+		// records that encode to zero bytes: blocks with a count and an empty payload
+		{"T0", ref.Record("T0"), reflect.TypeOf(T0{}), []ref.Datum{ref.DRecord(), ref.DRecord(), ref.DRecord()}},
 		{"T1", s1, reflect.TypeOf(T1{}), []ref.Datum{ref.DRecord(ref.DLong(1)), ref.DRecord(ref.DLong(-2)), ref.DRecord(ref.DLong(33))}},
 		{"T2", s2, reflect.TypeOf(T2{}), []ref.Datum{
 			ref.DRecord(ref.DString(""), ref.DBytes("")),
@@ -117,7 +120,7 @@ func Family(maxRecs int) []File {
 			}
 		}
 	}
-	sc := Schemas()[0]
+	sc := Schemas()[1]
 	for _, codec := range []string{"null", "deflate", "snappy"} {
 		recs := make([]ref.Datum, 71)
 		for i := range recs {
